@@ -163,12 +163,12 @@ def run(ctx, args):
     e3 = [("MC_CertCache.tla", "MC_CertCache_q.cfg"), ("MC_CertCache.tla", "MC_CertCache_q2.cfg")]
     wit = [("MC_CertCache.tla", "MC_CertCache_wit_nokeys.cfg", "CacheAgrees"),
            ("MC_CertCache.tla", "MC_CertCache_wit_nothr.cfg", "CacheAgrees"),
-           ("MC_CertCache.tla", "MC_CertCache_wit_nosig.cfg", "CacheAgrees"),
-           ("MC_Cert.tla", "MC_Cert_wit_WitnessFinal.cfg", "WitnessFinal"),
            ("MC_Cert.tla", "MC_Cert_wit_WitnessStaleFlip.cfg", "WitnessStaleFlip")]
     if not quick:
-        wit += [("MC_Cert.tla", "MC_Cert_wit_%s.cfg" % w, w) for w in ("WitnessStaleKeeps", "WitnessRemoving", "WitnessPledgeKey")]
-    with ThreadPoolExecutor(max_workers=4) as ex:
+        wit += [("MC_CertCache.tla", "MC_CertCache_wit_nosig.cfg", "CacheAgrees")]
+        wit += [("MC_Cert.tla", "MC_Cert_wit_%s.cfg" % w, w)
+                for w in ("WitnessFinal", "WitnessStaleKeeps", "WitnessRemoving", "WitnessPledgeKey")]
+    with ThreadPoolExecutor(max_workers=6) as ex:
         fe = ex.submit(ctx.tlc_edges, d, "MC_Cert.tla", tab, 1500, False, "CASE ")
         f3 = [ex.submit(ctx.tlc_mc, d, m, c, workers=2, timeout=900, count=False) for m, c in e3]
         fw = [ex.submit(ctx.tlc_mc, d, m, c, workers=2, timeout=900, expect_violation=n, count=False) for m, c, n in wit]
